@@ -1,8 +1,8 @@
 #!/bin/sh
-# usage: try_dev.sh <seeded-id> [tier]  -- apply a seeded change to the scratch worktree /tmp/wt/dev, run the property's check
+# usage: try_dev.sh <seeded-id> [tier]  -- apply a seeded change to the scratch worktree ${DEVWT:-/tmp/wt/dev}, run the property's check
 # against it (RSATOOLBOX_SRC), undo.  Development aid; the recorded detection runs are done by detect_all.py on /repo.
 id=$1; tier=${2:-quick}; prop=$(echo $id | cut -d- -f1)
-git -C /tmp/wt/dev apply /verif/seeded/$id/patch.diff || { echo "$id APPLY FAILED"; exit 3; }
-out=$(RSATOOLBOX_SRC=/tmp/wt/dev/src python3 /verif/run_check.py $prop --tier $tier --no-evidence 2>&1); rc=$?
-git -C /tmp/wt/dev checkout -- .
+git -C ${DEVWT:-/tmp/wt/dev} apply /verif/seeded/$id/patch.diff || { echo "$id APPLY FAILED"; exit 3; }
+out=$(RSATOOLBOX_SRC=${DEVWT:-/tmp/wt/dev}/src python3 /verif/run_check.py $prop --tier $tier --no-evidence 2>&1); rc=$?
+git -C ${DEVWT:-/tmp/wt/dev} checkout -- .
 echo "$id $tier rc=$rc $(echo "$out" | grep -v KNOWN | grep VIOLATION | head -2 | cut -c1-260)"
